@@ -414,8 +414,18 @@ pub fn gen_world(seed: u64) -> C12World {
 
     let mut extra_flags: Vec<String> = Vec::new();
     let mut drop_input = false;
-    if em.rng.chance(1, 6) {
-        match em.rng.below(14) {
+    let mut exec_dash = false;
+    let pick_mismatch = em.rng.chance(1, 6);
+    let late = !pick_mismatch && !use_tla && matches!(value, Json::Obj(_) | Json::Arr(_)) && em.rng.chance(1, 8);
+    if pick_mismatch || late {
+        let kind = if late { if matches!(value, Json::Obj(_)) { 10 } else { 11 } } else { em.rng.below(15) };
+        match kind {
+            14 if mode.input == InputKind::Exec => {
+                // `-e -`: the program text is a lone minus sign (a syntax error), NOT "read standard input"; something
+                // that would evaluate fine waits on stdin
+                exec_dash = true;
+                expect = Expect::Fail(1, "-e with the program text `-`".into());
+            }
             0 if !mode.s && !matches!(value, Json::Str(_)) && mode.m.is_none() => {
                 mode.s = true;
                 mode.y = false;
@@ -536,6 +546,12 @@ pub fn gen_world(seed: u64) -> C12World {
             InputKind::File => {
                 tree.push(("main.jsonnet".into(), Entry::File(body.clone().into_bytes())));
                 argv.push("main.jsonnet".into());
+            }
+            InputKind::Exec if exec_dash => {
+                argv.push("-e".into());
+                argv.push("--".into());
+                argv.push("-".into());
+                stdin = Some(body.clone().into_bytes());
             }
             InputKind::Exec => {
                 argv.push("-e".into());
